@@ -7,15 +7,20 @@ every interleaving of starts and finishes):
       steps) is called in plugins/basic.py only inside
       `async with self._maybe_acquire_max_concurrent_runs(<the workflow parameter>, ...)`, and that
       coroutine is what `BasicRuntime.run_workflow` schedules.
-* R2  `_maybe_acquire_max_concurrent_runs`, interpreted from its AST on the exhaustive domain
-      limit ∈ {None, 1, 2, 3, 4} x table ∈ {empty, entry of this instance, entry of another instance,
-      both} x {no failure, exception injected at every suspension point in turn}: exactly one yield;
-      on the limited path the yield happens while exactly one semaphore is held; that semaphore is
-      the instance's registered one when there is one, otherwise a new `Semaphore(limit)` registered
-      under `id(workflow)`; entries of other instances are neither used nor changed; whatever is
-      acquired is released on every exit.  Structural: no suspension point between the table
-      test and the insert (two concurrent first runs would otherwise create two semaphores), and the
-      semaphore entered is pinned by a local name (the table is a WeakValueDictionary).
+* R2  `_maybe_acquire_max_concurrent_runs`, interpreted from its AST.  A workflow instance is modelled by what distinct
+      instances may share (class -> `__class__`/`type()`, `_workflow_name` and the repo's own `workflow_name` property
+      evaluated on it, `_num_concurrent_runs`) and what they cannot (identity: `id()`, the instance as an identity-hashed
+      key).  Table states are not written down under a guessed key but produced by the helper itself: runs that are "in
+      progress" are interpretations suspended at their yield while the next run starts.  Domain: limit in {None, 1..4} x
+      runs in progress in {none, same instance, another instance, both} x {no failure, exception injected at every
+      suspension point in turn}, plus every pair of limits {1..4}^2 for two live instances that are equal in every
+      attribute but identity (class-derived and explicit shared workflow_name).  Decided: exactly one yield; on the
+      limited path the yield happens while exactly one semaphore is held; concurrent runs of one instance hold the same
+      semaphore; a first run creates `Semaphore(limit)` and registers it; two distinct live instances never hold the
+      same semaphore (independent limits -- the violation names the registry key expression); the semaphore of a run
+      still in progress stays registered when another run ends; whatever is acquired is released on every exit.
+      Structural: no suspension point between the table test and the insert (two concurrent first runs would otherwise
+      create two semaphores), and the semaphore entered is pinned by a local name (the table is a WeakValueDictionary).
 * R3  `_num_concurrent_runs` is written only by `Workflow.__init__`, with the unmodified
       `num_concurrent_runs` argument.
 
@@ -38,14 +43,17 @@ from .c25 import Sim, run_generator  # shared helper: Interp + async-with / yiel
 EXPLANATION = (
     "R1: every call of a registered workflow's run function in plugins/basic.py is lexically inside `async with "
     "self._maybe_acquire_max_concurrent_runs(workflow, ...)` with the workflow parameter of run_workflow, inside the coroutine that run_workflow schedules. "
-    "R2: the acquisition helper is interpreted from its AST for limit in {None,1..4} x 4 table states x an exception injected at each suspension point: "
-    "one yield; on the limited path exactly one semaphore held at the yield, the registered one of this instance or a new Semaphore(limit) stored under "
-    "id(workflow); other instances' entries untouched; everything acquired is released on every exit; no suspension between table test and insert; the "
+    "R2: the acquisition helper is interpreted from its AST on workflow models that carry what instances may share (class, workflow_name, limit) and what they cannot "
+    "(identity), with table states produced by the helper's own suspended runs: limit in {None,1..4} x runs in progress {none, same instance, another instance, both} x an "
+    "exception injected at each suspension point, plus all limit pairs {1..4}^2 of two live instances equal in everything but identity (class-derived and explicit shared "
+    "name): one yield; on the limited path exactly one semaphore held at the yield; concurrent runs of one instance share it; a first run registers a new Semaphore(limit); "
+    "two distinct live instances never hold the same semaphore (the registry key must identify the instance: id(workflow) or the instance itself pass, workflow_name / class "
+    "do not); a running run's semaphore stays registered; everything acquired is released on every exit; no suspension between table test and insert; the "
     "entered semaphore is pinned by a local (WeakValueDictionary). R3: `_num_concurrent_runs` has exactly one writer, Workflow.__init__, storing the argument unchanged. "
     "Not decided: semaphore fairness (trusted); other runtimes (observation)."
 )
-TRUSTED = ["CPython ast", "asyncio.Semaphore semantics (counter, FIFO wake-up)", "contextlib.asynccontextmanager", "id() is unique among live objects"]
-LEVEL_NOTE = "Exhaustive over limit {None,1..4} x 4 table states x every suspension point of the helper; structural rules for the call site and the limit's data flow. Fairness is trusted."
+TRUSTED = ["CPython ast", "asyncio.Semaphore semantics (counter, FIFO wake-up)", "contextlib.asynccontextmanager", "id() is unique among live objects", "Workflow instances hash/compare by identity (no __eq__/__hash__ override)"]
+LEVEL_NOTE = "Exhaustive over limit {None,1..4} x 4 runs-in-progress states x every suspension point of the helper, and over limit pairs {1..4}^2 x 2 namings of two identity-distinct equal instances; structural rules for the call site and the limit's data flow. Fairness is trusted."
 TECHNIQUE = "static analysis: finite-domain AST interpretation with exception injection + lexical/CFG rules (guarded call site, check-then-act window, single writer)"
 
 BASIC = "workflows.plugins.basic"
@@ -101,7 +109,7 @@ def run(chk) -> None:
     _observe_other_runtimes(chk, repo)
 
     # ------------------------------------------------------------------ R2 semantic
-    _simulate(chk, mh, helper)
+    _simulate(chk, repo, mh, helper)
 
     # ------------------------------------------------------------------ R2 structural: check-then-act window on the table
     cfg = CFG(helper)
@@ -225,21 +233,75 @@ def _observe_other_runtimes(chk, repo) -> None:
 
 
 # ================================================================================== simulation
-def _simulate(chk, m, helper: ast.AST) -> None:
+class _Sim30(Sim):
+    """`Sim` + `Semaphore.locked()` with asyncio's meaning (no free permit, counted over every run in progress)."""
+
+    world: list  # every simulated run of the scenario (each has its own `held`)
+
+    def e_Call(self, e, env):
+        if isinstance(e.func, ast.Attribute) and e.func.attr == "locked":
+            try:
+                obj = self.eval(e.func.value, env)
+            except Unsupported:
+                obj = None
+            if isinstance(obj, Record) and obj._cls == "Semaphore" and isinstance(obj.__dict__.get("value"), int):
+                return sum(1 for r in self.world for h in r.held if h is obj) >= obj.value
+        return super().e_Call(e, env)
+
+
+def _key_exprs(helper: ast.AST) -> list[str]:
+    """Source of every key under which the helper reads or writes the semaphore table, local definitions substituted."""
+    keys: list[ast.AST] = []
+    for x in ast.walk(helper):
+        if not (isinstance(x, ast.Attribute) and x.attr == TABLE):
+            continue
+        p = parent(x)
+        if isinstance(p, ast.Subscript) and p.value is x:
+            keys.append(p.slice)
+        elif isinstance(p, ast.Attribute) and p.attr in ("get", "setdefault", "pop", "__getitem__", "__setitem__", "__contains__"):
+            c = parent(p)
+            if isinstance(c, ast.Call) and c.func is p and c.args:
+                keys.append(c.args[0])
+        elif isinstance(p, ast.Compare) and x in p.comparators and any(isinstance(o, (ast.In, ast.NotIn)) for o in p.ops):
+            keys.append(p.left)
+    out: list[str] = []
+    for k in keys:
+        try:
+            txt = ast.unparse(expand(k, enclosing_stmt(k)))
+        except Exception:  # noqa: BLE001 - naming the key is diagnostic only
+            txt = ast.unparse(k)
+        if txt not in out:
+            out.append(txt)
+    return out
+
+
+def _simulate(chk, repo, m, helper: ast.AST) -> None:
     params = [a.arg for a in helper.args.posonlyargs + helper.args.args]
     if len(params) < 2:
         raise AnchorError(f"`{HELPER}` has no workflow parameter")
     selfname, wfname = params[0], _param_named(helper, "workflow", 1)
     extra = {p: f"<{p}>" for p in params if p not in (selfname, wfname)}
+    _, wfcls = repo.cls(f"{WF}:Workflow")
+    keys = _key_exprs(helper)
+    chk.floor("C30.R2", "key expressions under which the helper reads or writes the semaphore table", len(keys), 1)
+    keytxt = " / ".join(f"`{k}`" for k in keys)
     hooks = {
         "id": lambda o: ("id-of", id(o)),
-        "type": lambda o: ("type-of", getattr(o, "_cls", type(o).__name__)),
+        "type": lambda o: o.__dict__["__class__"] if isinstance(o, Record) and "__class__" in o.__dict__ else ("type-of", getattr(o, "_cls", type(o).__name__)),
         "asyncio.sleep": lambda *a: None,
     }
     for prim in ("Semaphore", "BoundedSemaphore"):
         hooks[f"asyncio.{prim}"] = (lambda value=1, _p=prim: Record("Semaphore", value=value, name=f"new-{_p}({value})"))
         hooks[prim] = hooks[f"asyncio.{prim}"]
     hooks["asyncio.Lock"] = lambda: Record("Semaphore", value=1, name="new-Lock")
+
+    # What distinct instances may share: class (hence the default workflow_name), an explicit workflow_name, the limit.
+    # What they cannot share: identity (`id()` of the record / the record as an identity-hashed key).
+    klass = Record("type", __module__="app.flows", __qualname__="Flow", __name__="Flow")
+
+    def instance(limit, explicit_name, tag):
+        return Record("Workflow", **{LIMIT_FIELD: limit, "_workflow_name": explicit_name, "__class__": klass, "_tag": tag})
+
     cases = 0
     bad: dict[str, str] = {}
     samples = []
@@ -247,83 +309,136 @@ def _simulate(chk, m, helper: ast.AST) -> None:
     def fail(slot: str, why: str) -> None:
         bad.setdefault(slot, why)
 
+    def sem_of(run) -> Record | None:
+        for y in run["at_yield"][:1]:
+            sems = [h for h in y["held"] if isinstance(h, Record) and h._cls == "Semaphore"]
+            return sems[0] if len(sems) == 1 else None
+        return None
+
+    def scenario(stack: list, inj: int | None):
+        """Runs in progress, outermost first: every run but the last stays suspended at its yield while the next one starts;
+        the last one is the run under observation (exception injected at suspension point `inj`)."""
+        table: dict = {}
+        me = Record("BasicRuntime", **{TABLE: table})
+        world: list = []
+        runs: list[dict] = []
+
+        def go(i: int) -> None:
+            last = i == len(stack) - 1
+            run = {"wf": stack[i], "at_yield": [], "after": None}
+            runs.append(run)
+
+            def on_yield(sim, env):
+                run["at_yield"].append({"held": list(sim.held), "table": dict(table)})
+                if not last and len(run["at_yield"]) == 1:
+                    go(i + 1)
+                    run["after"] = dict(table)  # the table once the observed run is over, this run still in progress
+
+            sim = _Sim30({}, hooks, inject_at=(inj if last else None), on_yield=on_yield)
+            sim.with_class("Workflow", wfcls)
+            sim.world = world
+            world.append(sim)
+            run["sim"] = sim
+            run["left_by"] = run_generator(helper, sim, {selfname: me, wfname: stack[i], **extra})
+
+        try:
+            go(0)
+        except Unsupported as e:
+            raise AnchorError(f"C30.R2: `{HELPER}` uses a construct the interpreter does not model: {e}")
+        return runs, table
+
+    def judge(stack: list, label: str, inj: int | None) -> int:
+        nonlocal cases
+        runs, table = scenario(stack, inj)
+        cases += 1
+        obs, outer = runs[-1], runs[:-1]
+        wf, limit, sim = obs["wf"], obs["wf"].__dict__[LIMIT_FIELD], obs["sim"]
+        where = f"limit={limit}, {label}, " + (f"exception injected at {sim.points[inj]}" if inj is not None and inj < len(sim.points) else "no exception")
+        for r in outer:
+            if r["left_by"] is not None or r["sim"].held:
+                fail("released", f"{where}: an earlier run ends with {r['left_by']}, still holding {[getattr(h, 'name', h) for h in r['sim'].held]}")
+        if inj is None:
+            if len(samples) < 4 and len(stack) <= 2 and all(r["wf"] is wf for r in runs):
+                samples.append({"limit": limit, "runs_in_progress": len(outer), "trace": [t[0] + (":" + str(getattr(t[1], "name", t[1])) if len(t) > 1 else "") for t in sim.trace]})
+            if obs["left_by"] is not None:
+                fail("raises", f"{where}: the helper raises {obs['left_by']}")
+            if len(obs["at_yield"]) != 1:
+                fail("one-yield", f"{where}: the helper yields {len(obs['at_yield'])} times (an @asynccontextmanager must yield exactly once)")
+        elif obs["left_by"] is None:
+            fail("swallowed", f"{where}: the injected exception did not propagate")
+        mine = [sem_of(r) for r in outer if r["wf"] is wf and sem_of(r) is not None]
+        others = [(r["wf"], sem_of(r)) for r in outer if r["wf"] is not wf and sem_of(r) is not None]
+        for y in obs["at_yield"][:1]:
+            if limit is None:
+                continue
+            sems = [h for h in y["held"] if isinstance(h, Record) and h._cls == "Semaphore"]
+            if len(sems) != 1:
+                fail("held-at-yield", f"{where}: {len(sems)} semaphores are held at the yield (the run would execute without / with more than its slot)")
+                continue
+            s = sems[0]
+            shared_with = [o for o, so in others if so is s]
+            if shared_with:
+                o = shared_with[0]
+                fail("independent", f"{where}: the run holds the semaphore (capacity {s.value!r}) that a run of ANOTHER live instance holds — the two instances are equal in class, "
+                     f"workflow_name ({'explicit' if o._workflow_name else 'derived from the class'}) and differ only in identity and limit ({o.__dict__[LIMIT_FIELD]} vs {limit}); "
+                     f"the registry key {keytxt} does not identify the instance, so instances share one limit sized by whichever ran first")
+            if mine and s is not mine[0]:
+                fail("shared-per-instance", f"{where}: a run of an instance that already has a run in progress uses a different semaphore — concurrent runs are not counted together")
+            if not mine and not shared_with and s.value != limit:
+                fail("capacity", f"{where}: the new semaphore has capacity {s.value!r}, the limit is {limit}")
+            if not any(v is s for v in y["table"].values()):
+                fail("registered", f"{where}: the semaphore in use is not registered in `{TABLE}` (registered keys: {list(y['table'])}) — the next run will not find it")
+            expected = len({id(r["wf"]) for r in runs if r["wf"].__dict__[LIMIT_FIELD] is not None})
+            if len(y["table"]) > expected:
+                fail("registered", f"{where}: {len(y['table'])} entries registered for {expected} limited instance(s) with a run in progress: {list(y['table'])}")
+        if sim.held:
+            fail("released", f"{where}: still held after exit: {[getattr(h, 'name', h) for h in sim.held]}")
+        # runs that are still in progress when the observed run is over keep their registration
+        for r in outer:
+            so = sem_of(r)
+            if so is None or r["after"] is None or any(v is so for v in r["after"].values()):
+                continue
+            if not any(v is so for v in r["at_yield"][0]["table"].values()):
+                continue  # never registered: reported by `registered`
+            if r["wf"] is not wf:
+                fail("independent", f"{where}: the entry of another instance (run in progress) was removed or replaced")
+            elif len(mine) < (limit or 0):  # a state asyncio can reach: the observed run did get a permit
+                fail("registered-while-running", f"{where}: after this run ended the semaphore of a run of the same instance that is still in progress is no longer registered — "
+                     "the next run creates a second semaphore and the instance exceeds its limit")
+        return len(sim.points)
+
+    # -- grid 1: limit x runs already in progress (none / same instance / another instance / both) x injection point
     for limit in (None, 1, 2, 3, 4):
-        for table_kind in ("empty", "mine", "other", "both"):
-            n_points, inj = None, None
-            while True:
-                wf = Record("Workflow", **{LIMIT_FIELD: limit})
-                other_wf = Record("Workflow", **{LIMIT_FIELD: 7})
-                table: dict = {}
-                mine = other = None
-                if table_kind in ("mine", "both"):
-                    mine = Record("Semaphore", value=limit or 1, name="registered-semaphore")
-                    table[("id-of", id(wf))] = mine
-                if table_kind in ("other", "both"):
-                    other = Record("Semaphore", value=7, name="semaphore-of-other-instance")
-                    table[("id-of", id(other_wf))] = other
-                init_table = dict(table)
-                me = Record("BasicRuntime", **{TABLE: table})
-                at_yield: list[dict] = []
-
-                def on_yield(sim, env, _t=table, _y=at_yield):
-                    _y.append({"held": list(sim.held), "table": dict(_t)})
-
-                sim = Sim({}, hooks, inject_at=inj, on_yield=on_yield)
-                try:
-                    left_by = run_generator(helper, sim, {selfname: me, wfname: wf, **extra})
-                except Unsupported as e:
-                    raise AnchorError(f"C30.R2: `{HELPER}` uses a construct the interpreter does not model: {e}")
-                cases += 1
-                where = f"limit={limit}, table={table_kind}, " + (f"exception injected at {sim.points[inj]}" if inj is not None and inj < len(sim.points) else "no exception")
-                if inj is None:
-                    n_points = len(sim.points)
-                    if len(samples) < 4 and table_kind in ("empty", "mine"):
-                        samples.append({"limit": limit, "table": table_kind, "trace": [t[0] + (":" + str(getattr(t[1], "name", t[1])) if len(t) > 1 else "") for t in sim.trace]})
-                    if left_by is not None:
-                        fail("raises", f"{where}: the helper raises {left_by}")
-                    if len(at_yield) != 1:
-                        fail("one-yield", f"{where}: the helper yields {len(at_yield)} times (an @asynccontextmanager must yield exactly once)")
-                elif left_by is None:
-                    fail("swallowed", f"{where}: the injected exception did not propagate")
-                for y in at_yield[:1]:
-                    sems = [h for h in y["held"] if isinstance(h, Record) and h._cls == "Semaphore"]
-                    if limit is None:
-                        continue
-                    key = ("id-of", id(wf))
-                    if len(sems) != 1:
-                        fail("held-at-yield", f"{where}: {len(sems)} semaphores are held at the yield (the run would execute without / with more than its slot)")
-                        continue
-                    s = sems[0]
-                    if s is other:
-                        fail("independent", f"{where}: the run holds the semaphore of another workflow instance")
-                    if mine is not None and s is not mine:
-                        fail("shared-per-instance", f"{where}: a run of an instance that already has a semaphore uses a different one — concurrent runs are not counted together")
-                    if mine is None and s is not other and s.value != limit:
-                        fail("capacity", f"{where}: the new semaphore has capacity {s.value!r}, the limit is {limit}")
-                    if y["table"].get(key) is not s:
-                        fail("registered", f"{where}: the semaphore in use is not registered under id(workflow) (registered keys: {[k for k in y['table']]}) — the next run will not find it")
-                if sim.held:
-                    fail("released", f"{where}: still held after exit: {[getattr(h, 'name', h) for h in sim.held]}")
-                if other is not None and table.get(("id-of", id(other_wf))) is not other:
-                    fail("independent", f"{where}: the entry of another instance was changed")
-                extra_keys = [k for k in table if k not in init_table and k != ("id-of", id(wf))]
-                if extra_keys:
-                    fail("registered", f"{where}: entries registered under keys other than id(workflow): {extra_keys}")
-                inj = 0 if inj is None else inj + 1
-                if n_points is None or inj >= n_points:
-                    break
+        for label in ("empty", "mine", "other", "both"):
+            wf = instance(limit, None, "observed")
+            twin = instance(7, None, "other")  # equal to `wf` in everything an instance can share, except the limit
+            stack = ([twin] if label in ("other", "both") else []) + ([wf] if label in ("mine", "both") else []) + [wf]
+            n = judge(stack, f"runs in progress={label}", None)
+            for inj in range(n):
+                judge(stack, f"runs in progress={label}", inj)
+    # -- grid 2: two live instances equal in every attribute but identity; every pair of limits, both ways of naming
+    pairs = 0
+    for explicit in (None, "shared-name"):
+        for la in (1, 2, 3, 4):
+            for lb in (1, 2, 3, 4):
+                a, b = instance(la, explicit, "first"), instance(lb, explicit, "second")
+                judge([a, b], f"a run of an equal instance with limit {la} in progress ({'explicit' if explicit else 'class-derived'} workflow_name)", None)
+                pairs += 1
     chk.exhaustive = True
-    chk.extra["simulation"] = {"cases": cases, "limits": [None, 1, 2, 3, 4], "tables": ["empty", "mine", "other", "both"], "samples": samples}
-    chk.floor("C30.R2", "interpreted (limit, table, injection point) cases", cases, 20 + 16 * 2)
+    chk.extra["simulation"] = {"cases": cases, "limits": [None, 1, 2, 3, 4], "runs_in_progress": ["empty", "mine", "other", "both"], "instance_pairs": pairs,
+                               "table_keys": keys, "samples": samples}
+    chk.floor("C30.R2", "interpreted (limit, runs in progress, injection point) cases", cases, 20 + 16 * 2 + 32)
+    chk.floor("C30.R2", "interpreted pairs of instances equal in everything but identity", pairs, 32)
     texts = {
         "one-yield": "the helper yields exactly once for every limit (None, 1..4) and table state",
         "raises": "the undisturbed helper raises nothing",
         "swallowed": "a failure or cancellation of the run propagates through the helper",
         "held-at-yield": "with a limit, the run executes (yield) while exactly one semaphore is held",
-        "shared-per-instance": "all runs of one workflow instance share the instance's registered semaphore",
+        "shared-per-instance": "all concurrent runs of one workflow instance share one semaphore",
         "capacity": "a new semaphore has capacity = the instance's limit",
-        "registered": "the semaphore in use is registered under id(workflow) and nothing else is registered",
-        "independent": "semaphores of other workflow instances are neither used nor changed (independent limits)",
+        "registered": "the semaphore in use is registered in the table and nothing else is registered",
+        "registered-while-running": "the semaphore of a run still in progress stays registered when another run of the instance ends",
+        "independent": f"two live instances that are equal in class, workflow_name and limit source but not in identity never share a semaphore (registry key: {keytxt})",
         "released": "whatever was acquired is released on every exit (normal, failure, cancellation at any suspension point)",
     }
     for slot, text in texts.items():
@@ -344,6 +459,11 @@ TWINS = [
          "task = asyncio.create_task(registered.workflow_run_fn(init_state, start_event, captured_tags))", "C30.R1"),
     # ---- R2
     Twin("semaphore keyed by class (instances share a limit)", _B, "workflow_id = id(workflow)", "workflow_id = id(type(workflow))", "C30.R2"),
+    Twin("semaphore keyed by workflow_name (all instances of a class / of a name share one semaphore)", _B, "workflow_id = id(workflow)", "workflow_id = workflow.workflow_name", "C30.R2"),
+    Twin("semaphore keyed by the class's qualified name", _B, "workflow_id = id(workflow)", "workflow_id = type(workflow).__qualname__", "C30.R2"),
+    Twin("semaphore keyed by (name, limit): equal instances still share", _B, "workflow_id = id(workflow)", "workflow_id = (workflow.workflow_name, workflow._num_concurrent_runs)", "C30.R2"),
+    Twin("entry dropped while a sibling run is in progress (semaphore not locked != idle)", _B, "            async with sem:\n                yield",
+         "            try:\n                async with sem:\n                    yield\n            finally:\n                if not sem.locked():\n                    self._max_concurrent_runs.pop(workflow_id, None)", "C30.R2"),
     Twin("capacity off by one", _B, "sem = asyncio.Semaphore(workflow._num_concurrent_runs)", "sem = asyncio.Semaphore(workflow._num_concurrent_runs + 1)", "C30.R2"),
     Twin("fresh semaphore for every run", _B, "            if workflow_id in self._max_concurrent_runs:\n", "            if workflow_id in self._max_concurrent_runs and False:\n", "C30.R2"),
     Twin("new semaphore never registered", _B, "                self._max_concurrent_runs[workflow_id] = sem\n", "                pass\n", "C30.R2"),
@@ -368,6 +488,8 @@ TWINS = [
          "                return await registered.workflow_run_fn(\n                    init_state, start_event, captured_tags\n                )",
          "                result = await registered.workflow_run_fn(\n                    init_state, start_event, captured_tags\n                )\n                return result", None),
     Twin("benign: annotated limit field", _W, "self._num_concurrent_runs = num_concurrent_runs", "self._num_concurrent_runs: int | None = num_concurrent_runs", None),
+    Twin("benign: keyed by the instance itself (identity-hashed)", _B, "workflow_id = id(workflow)", "workflow_id = workflow", None),
+    Twin("benign: identity plus name in the key", _B, "workflow_id = id(workflow)", "workflow_id = (id(workflow), workflow.workflow_name)", None),
     Twin("benign: inlined id", _B, "            if workflow_id in self._max_concurrent_runs:\n                sem = self._max_concurrent_runs[workflow_id]",
          "            if id(workflow) in self._max_concurrent_runs:\n                sem = self._max_concurrent_runs[id(workflow)]", None),
 ]
